@@ -105,17 +105,23 @@ def execute(hv, cases, runs_for, screen=None, nworkers=None, env=None):
 def claim_of(run, result):
     """What the call claimed when it came back (see BFTrace.tla)."""
     if "died" in result:
+        if result["died"] == "SIGABRT" and run.get("alloc") == "fail":
+            return "aborted", 0, "died:SIGABRT"         # the allocation-failure abort (C17)
         return "crashed", 0, "died:" + result["died"]
     if "hung" in result:
         # still running when the watchdog fired: only a canonically divergent run explains that
         return "running", 1, "hung"
     ret = result["ret"]
     if ret in ("ok", "true"):
+        if run.get("inAbsent") and not result.get("fault"):
+            return "returned", 0, ret     # a missing input source leaves no trace to tell stopped from complete
         return ("stopped" if result.get("fault") else "complete"), 0, ret
     if ret == "false":
         if result.get("fault"):
             return "stopped", 0, ret
         return "unfinished", (1 if run.get("budget", 0) >= UNLIMITED else 0), ret
+    if ret.startswith("panic") and run.get("alloc") == "fail":
+        return "aborted", 0, ret
     return "crashed", 0, ret
 
 
@@ -137,6 +143,7 @@ def make_trace(tid, case, run, result):
         "claim": claim,
         "mustFinish": must,
         "detail": detail,
+        "refused": result.get("allocFailed", 0),
     }
 
 
